@@ -221,7 +221,7 @@ func ext_errors_As(err error, target any) (b bool) {
 
 func (s *Store[K, V]) spec_GetWithSecodary(key K) (v V, ok bool, err error) {
 	flag("may_panic") // a panic of the secondary tier's Get is passed on by the singleflight group
-	requires("wf", sp_wfStore(s) && s.secondaryCache != nil && sp_home(s, key).vgroup != nil)
+	requires("wf", sp_wfStore(s) && s.secondaryCache != nil && sp_promoteGroup(sp_home(s, key)) != nil)
 	// C15 "a later Get finds it there without reloading": when this call itself asked the secondary tier and the
 	// tier holds the key with a deadline that has not passed, the value is returned (and promoted) ...
 	ensures("unexpired_found", imp(gh_secGets() > old(gh_secGets()) && gh_secGetHit() && gh_secGetExpire() > clock.Gh_now(), ok && err == nil))
